@@ -158,4 +158,34 @@ def rule_newline(ctx):
                          "declared line delimiter are translated by the text layer" % ("reading" if mode == "r" else "writing"))
 
 
-RULES = [rule_dialect, rule_accepted_configurations, rule_newline]
+def rule_quoting_modes(ctx):
+    """O12.5: every quoting mode the loader accepts is one under which each text has a representation.  csv semantics
+    (frozen): QUOTE_MINIMAL and QUOTE_ALL quote whatever needs it; QUOTE_NONE never quotes, so with escape = quote (no
+    escapechar, the default) the writer raises csv.Error for a cell holding the delimiter, the quote or a line break."""
+    import csv
+
+    from ..model import AnalysisError
+
+    model = ctx.model
+    ctx.res.minimum("O12.5", 1)
+    interp = Interp(model, Chooser())
+    table = interp.global_lookup(model.module("cutplace.data"), "QUOTING_TO_CSV_QUOTE_MAP")
+    if not isinstance(table, dict) or not table:
+        raise AnalysisError("cutplace.data.QUOTING_TO_CSV_QUOTE_MAP does not fold to a table")
+    names = {getattr(csv, name): name for name in dir(csv) if name.startswith("QUOTE_")}
+    for mode, constant in sorted(table.items()):
+        what = "quoting mode %r (csv.%s) can represent every cell" % (mode, names.get(constant, constant))
+        if constant in (csv.QUOTE_MINIMAL, csv.QUOTE_ALL):
+            ctx.res.ok("O12.5", what, True)
+        elif constant == csv.QUOTE_NONE:
+            ctx.res.fail("O12.5", what, "data.QUOTING_TO_CSV_QUOTE_MAP:O12.5:%s" % mode, "cutplace/data.py (QUOTING_TO_CSV_QUOTE_MAP)",
+                         "the loader accepts quoting %r = csv.QUOTE_NONE: with the default escape character (= quote character, no "
+                         "escapechar) a cell holding the item delimiter, the quote character or a line break cannot be written "
+                         "(csv.Error), so it does not read back" % (mode,))
+        else:
+            raise AnalysisError("quoting mode %r = csv.%s is not covered by the round-trip argument" % (mode, names.get(constant, constant)))
+
+
+from .common import rule_module_state  # noqa: E402
+
+RULES = [rule_dialect, rule_accepted_configurations, rule_newline, rule_quoting_modes, rule_module_state]
